@@ -378,3 +378,4 @@ def write(repo):
 if __name__ == "__main__":
     e = write(os.environ.get("GBASIS_REPO", "/repo"))
     print("translator:", e or "ok")
+    sys.exit(3 if e else 0)
